@@ -119,9 +119,10 @@ Print Assumptions C03_dedup_member.
     decidable by running it (two versions of a non-generic crate, assoc-type variants with
     skipped parameters).  On that class it agrees with [types_equal] and [true] implies equal
     registry shapes at every depth, for every settings value, up to [shape_core]: the Box flag
-    of a field (read off the recorded type name) and the variant indices are forgotten --
-    [types_equal] never compares them (C03_equal_sound_refuted_boxed / _variant_index: the
-    conclusion cannot be strengthened to full shape equality even inside the class).
+    of a field (read off the recorded type name) is forgotten -- [types_equal] does not compare
+    recorded type names there (C03_equal_sound_refuted_boxed: the conclusion cannot be
+    strengthened to full shape equality even inside the class); field names, variant names
+    and indices, primitive kinds, array lengths, tuple arities and the nesting are all equal.
     MISSING for the full statement: generics in scope, shared or recursive ids -- exactly
     where the refutations live -- and the skeleton half of the conclusion. *)
 Theorem C03_equal_plain_agrees :
@@ -213,16 +214,11 @@ Proof. exact equal_sound_refuted_revisit. Qed.
 Print Assumptions C03_equal_sound_refuted_revisit.
 
 (** why the conclusion of C03_equal_sound_partial is up to [shape_core]: INSIDE the plain class
-    the variant indices are never compared (E { A = 0, B(u8) = 1 } against E { A = 1, B(u8) = 0 },
-    different on the wire) and neither are recorded type names (S { x: Box<u8> } against
-    S { x: u8 }, same on the wire, different Rust type) *)
-Theorem C03_equal_sound_refuted_variant_index :
-  exists r s a b,
-    types_equal_plain r a b = Ok true /\ types_equal_res r a b = Ok true /\
-    shape_reg r s 2 a <> shape_reg r s 2 b.
-Proof. exact equal_sound_refuted_variant_index. Qed.
-Print Assumptions C03_equal_sound_refuted_variant_index.
-
+    recorded type names are never compared (S { x: Box<u8> } against S { x: u8 }: same on the
+    wire, different Rust type).  Variant indices ARE part of [shape_core]: finding F19 (the
+    comparison ignored them; found by this proof, confirmed on the implementation and repaired
+    in /repo and in the model) has the regression witness [variant_index_compared] in
+    Proofs/EqualSound.v. *)
 Theorem C03_equal_sound_refuted_boxed :
   exists r s a b,
     types_equal_plain r a b = Ok true /\ types_equal_res r a b = Ok true /\
